@@ -25,7 +25,7 @@ type c14EzCfg struct {
 	Path        string      `dials:"path"`
 	BindAddress string      `dials:"bindAddress" dialsalias:"listenAddress"`
 	MaxConn     int         `dialsalias:"connLimit"`
-	Nested      c14EzNested `dials:"nestedBlock"`
+	Nested      c14EzNested `dials:"nestedBlock" dialsalias:"legacyBlock"`
 }
 
 // ConfigPath implements ez.ConfigWithConfigPath.
@@ -101,9 +101,36 @@ func c14Ez(w *fw.Worker, i int, r *fw.Rand) {
 		nested[key("plainField", "plain", "field")] = "pf"
 		want.Nested.Plain = "pf"
 	}
+	// the struct-typed field is aliased too: its section may appear under either name (inner aliases work in both),
+	// and a document holding both keys is an error even when one section is empty
+	blockPrimary, blockAlias := key("nestedBlock", "nested", "block"), key("legacyBlock", "legacy", "block")
+	blockPat := "none"
 	if len(nested) > 0 {
-		doc[key("nestedBlock", "nested", "block")] = nested
+		switch r.Intn(6) {
+		case 0, 1:
+			blockPat = "primary"
+			doc[blockPrimary] = nested
+		case 2, 3:
+			blockPat = "alias"
+			doc[blockAlias] = nested
+		case 4:
+			blockPat = "both-one-empty"
+			if r.Bool() {
+				doc[blockPrimary], doc[blockAlias] = nested, map[string]any{}
+			} else {
+				doc[blockPrimary], doc[blockAlias] = map[string]any{}, nested
+			}
+			both = append(both, "Nested")
+		case 5:
+			blockPat = "both"
+			doc[blockPrimary], doc[blockAlias] = nested, map[string]any{key("plainField", "plain", "field"): "other"}
+			both = append(both, "Nested")
+		}
+	} else if r.Chance(30) {
+		blockPat = "one-empty-section"
+		doc[fw.Pick(r, []string{blockPrimary, blockAlias})] = map[string]any{}
 	}
+	pat += "|" + blockPat
 	var text []byte
 	ext := ".json"
 	if useYAML {
@@ -134,11 +161,11 @@ func c14Ez(w *fw.Worker, i int, r *fw.Rand) {
 	ctx, cancel := context.WithCancel(context.Background())
 	defer cancel()
 	d, derr := ez.FileExtensionDecoderConfigEnvFlag(ctx, cfg, params)
-	w.Count("aliased_leaves_judged", 3)
+	w.Count("aliased_leaves_judged", 4)
 	w.Count("ez_alias_cases", 1)
 	if len(both) > 0 {
 		if derr == nil {
-			w.Violation(i, "both-primary-and-alias-accepted:ez", fmt.Sprintf("fields %v supplied under both names, no error", both), desc)
+			w.Violation(i, "both-primary-and-alias-accepted:ez:block="+blockPat, fmt.Sprintf("fields %v supplied under both names, no error", both), desc)
 			return
 		}
 		named := false
@@ -154,7 +181,7 @@ func c14Ez(w *fw.Worker, i int, r *fw.Rand) {
 		w.Count("both_set_errors_checked", 1)
 	} else {
 		if derr != nil {
-			w.Violation(i, "error-without-both-set:ez", derr.Error(), desc)
+			w.Violation(i, "error-without-both-set:ez:block="+blockPat, derr.Error(), desc)
 			return
 		}
 		got := *d.View()
@@ -163,6 +190,7 @@ func c14Ez(w *fw.Worker, i int, r *fw.Rand) {
 			if !kebab {
 				cls = "plain"
 			}
+			cls += ":block=" + blockPat
 			w.Violation(i, "alias-result-differs:ez:"+cls, fmt.Sprintf("want %+v got %+v", want, got), desc)
 			return
 		}
